@@ -141,7 +141,7 @@ type C18Scenario struct {
 
 func drawC18(rt *rapid.T) interface{} {
 	sc := &C18Scenario{}
-	n := rapid.IntRange(0, 5).Draw(rt, "nsteps")
+	n := rapid.IntRange(0, hx.Pick(5, 8)).Draw(rt, "nsteps")
 	for i := 0; i < n; i++ {
 		sc.Steps = append(sc.Steps, step{
 			Kind:  rapid.SampledFrom([]string{"ok", "ok", "ok", "exec", "exec", "err", "panic", "panic", "panicnil", "panicerr"}).Draw(rt, "kind"),
@@ -367,6 +367,7 @@ func TestC18(t *testing.T) {
 		Stubs:       []string{"database/sql/driver (in-process fake: records begin/commit/rollback/exec, fails begin, commit, rollback or the n-th exec on demand)"},
 		Rule: "scenario = 0-5 steps, each succeeding, returning an error, panicking or executing a statement through the transaction (the n-th exec may fail), optionally wrapped in Combine groups, x begin / commit / rollback each failing or not; " +
 			"oracle over the driver's event log and the returned error; non-trivial = >=1 step; distinct = distinct (step kinds, grouping, fault flags, driver event sequence)",
+		Probes:      []string{"all-steps-ok", "begin-failure", "commit-failure", "rollback-failure", "step-failure-err", "step-failure-exec", "step-failure-panic", "step-failure-panicnil", "step-failure-panicerr"},
 		Assumptions: []string{"runs outside the synctest bubble (database/sql has goroutines and real mutexes of its own); no schedule is involved"},
 	})
 }
